@@ -1029,7 +1029,10 @@ class Messenger(Connection):
         self.send_ready()
 
         self._keepalive_reset()
-        self._idle_reset()
+        if not self._in_term:
+            # once terminating only the peer keeps the session alive, not
+            # this side's own KEEPALIVE messages
+            self._idle_reset()
 
     def send_reject(self, reason, pkt=None):
         ''' Send a message rejection response.
@@ -1068,6 +1071,8 @@ class Messenger(Connection):
         )
         self.send_message(messages.MessageHead() /
                           messages.SessionTerm(**options))
+        # the peer has the idle time to react
+        self._idle_reset()
 
     def start(self):
         ''' Main state machine of the agent contact. '''
